@@ -116,7 +116,7 @@ def datetime_iso(draw, profile="json"):
 
 
 _URIS = ["http://example.org/a", "urn:x:1", "http://a/e1", "mailto:a@b.c", "http://example.org/q?x=1&y=2#f",
-         "http://example.org/é", "file:///tmp/x y", "prov:looks-like-a-prov-name", "xsd:string"]
+         "http://example.org/é", "file:///tmp/x y", "prov:looks-like-a-prov-name", "xsd:string", "data/input.csv", "../out/x.json", "#sec"]
 _LANGS = ["en", "fr-CA", "de", "EN-gb"]
 _FOREIGN_XSD = ["float", "decimal", "gYear", "integer", "short", "token", "date", "unsignedInt"]
 
@@ -146,6 +146,12 @@ def native_typed_literal():
             lambda s: {"k": "tlit", "v": s, "dt": "string", "py": {"k": "str", "v": s}}),
         st.sampled_from(_URIS).map(lambda u: {"k": "tlit", "v": u, "dt": "anyURI", "py": {"k": "uri", "v": u}}),
         datetime_iso().map(lambda t: {"k": "tlit", "v": t, "dt": "dateTime", "py": {"k": "dt", "v": t}}),
+        # the Literal is built from a Python value of ANOTHER native type whose str() is a valid lexical form:
+        # the stated datatype decides, not the Python type of the constructor argument
+        st.integers(-1000, 1000).map(lambda n: {"k": "tlit", "v": str(n), "native": n, "dt": "double", "py": {"k": "float", "v": float(n).hex()}}),
+        st.sampled_from([0, 1]).map(lambda n: {"k": "tlit", "v": str(n), "native": n, "dt": "boolean", "py": {"k": "bool", "v": bool(n)}}),
+        st.integers(-1000, 1000).map(lambda n: {"k": "tlit", "v": str(n), "native": n, "dt": "string", "py": {"k": "str", "v": str(n)}}),
+        st.sampled_from([3.0, -2.0, 10.0]).map(lambda f: {"k": "tlit", "v": str(int(f)), "native": int(f), "dt": "long", "py": {"k": "int", "v": int(f)}}),
     )
 
 
